@@ -259,24 +259,36 @@ fn enc_g1() {
     }
     cover!(cy[0] & 1 == 1, "odd y");
 }
-fn enc_g2() {
+fn enc_g2(which: u8) {
     let ((fx0, x0), (fx1, x1)) = (raw_and_canon(any_below(&Q)), raw_and_canon(any_below(&Q)));
     let ((fy0, y0), (fy1, y1)) = (raw_and_canon(any_below(&Q)), raw_and_canon(any_below(&Q)));
     let x = sm9_core::Fq2::new(fx0, fx1);
     let y = sm9_core::Fq2::new(fy0, fy1);
     let p = G2::new(x, y, sm9_core::Fq2::one());
-    let s = p.to_slice();
-    let u = p.to_uncompressed();
-    let c = p.to_compressed();
-    assert!(u[0] == 4, "uncompressed prefix 0x04");
-    assert!(c[0] == 2 + (y0[0] & 1) as u8, "compressed prefix: parity of the real part of y");
     let (bx0, bx1, by0, by1) = (be_bytes32(&x0), be_bytes32(&x1), be_bytes32(&y0), be_bytes32(&y1));
-    let mut i = 0;
-    while i < 32 {
-        assert!(s[i] == bx1[i] && s[32 + i] == bx0[i] && s[64 + i] == by1[i] && s[96 + i] == by0[i], "raw: imaginary before real, x before y");
-        assert!(u[1 + i] == bx1[i] && u[33 + i] == bx0[i] && u[65 + i] == by1[i] && u[97 + i] == by0[i], "uncompressed layout");
-        assert!(c[1 + i] == bx1[i] && c[33 + i] == bx0[i], "compressed layout");
-        i += 1;
+    if which == 0 {
+        let s = p.to_slice();
+        let mut i = 0;
+        while i < 32 {
+            assert!(s[i] == bx1[i] && s[32 + i] == bx0[i] && s[64 + i] == by1[i] && s[96 + i] == by0[i], "raw: imaginary before real, x before y");
+            i += 1;
+        }
+    } else if which == 1 {
+        let u = p.to_uncompressed();
+        assert!(u[0] == 4, "uncompressed prefix 0x04");
+        let mut i = 0;
+        while i < 32 {
+            assert!(u[1 + i] == bx1[i] && u[33 + i] == bx0[i] && u[65 + i] == by1[i] && u[97 + i] == by0[i], "uncompressed layout");
+            i += 1;
+        }
+    } else {
+        let c = p.to_compressed();
+        assert!(c[0] == 2 + (y0[0] & 1) as u8, "compressed prefix: parity of the real part of y");
+        let mut i = 0;
+        while i < 32 {
+            assert!(c[1 + i] == bx1[i] && c[33 + i] == bx0[i], "compressed layout");
+            i += 1;
+        }
     }
     cover!(y0[0] & 1 == 1, "odd real part of y");
 }
@@ -386,7 +398,17 @@ macro_rules! dec_h {
             #[kani::stub(core::arch::x86_64::_addcarry_u64, addcarry_stub)]
             #[kani::stub(core::arch::x86_64::_subborrow_u64, subborrow_stub)]
             #[kani::stub(sm9_core::verif_hooks::U256::mul, mul_dec_id)]
-            fn k_enc_g2() { enc_g2() }
+            fn k_enc_g2_raw() { enc_g2(0) }
+            #[kani::unwind(34)]
+            #[kani::stub(core::arch::x86_64::_addcarry_u64, addcarry_stub)]
+            #[kani::stub(core::arch::x86_64::_subborrow_u64, subborrow_stub)]
+            #[kani::stub(sm9_core::verif_hooks::U256::mul, mul_dec_id)]
+            fn k_enc_g2_uncompressed() { enc_g2(1) }
+            #[kani::unwind(34)]
+            #[kani::stub(core::arch::x86_64::_addcarry_u64, addcarry_stub)]
+            #[kani::stub(core::arch::x86_64::_subborrow_u64, subborrow_stub)]
+            #[kani::stub(sm9_core::verif_hooks::U256::mul, mul_dec_id)]
+            fn k_enc_g2_compressed() { enc_g2(2) }
             #[kani::unwind(34)]
             #[kani::stub(core::arch::x86_64::_addcarry_u64, addcarry_stub)]
             #[kani::stub(core::arch::x86_64::_subborrow_u64, subborrow_stub)]
